@@ -47,6 +47,7 @@ def build():
         src = os.path.join(SPEC, "overrides", "HsOverrides.java")
         if not os.path.exists(cls) or os.path.getmtime(cls) < os.path.getmtime(src):
             sh(["javac", "-cp", "/opt/veriftools/tla/tla2tools.jar", "HsOverrides.java"], cwd=os.path.join(SPEC, "overrides"))
+        sh([sys.executable, os.path.join(V, "tools", "units2tla.py"), "/repo/unit-gen/units.txt", os.path.join(SPEC, "UnitsDb.tla")])
         lock = os.path.join(HARNESS, "Cargo.lock")
         if not os.path.exists(lock):
             shutil.copy("/repo/Cargo.lock", lock)
